@@ -185,12 +185,13 @@ Example C20_demo_d13_four :
        ERefUnknown KRegister "C" "X3"; ERefUnknown KRegister "D" "X4"].
 Proof. vm_compute. reflexivity. Qed.
 
-(* reset pass: conversion error is reported for the first offender in declaration order; a dangling
-   register ref WITH a reset override aborts (the .expect in reset_values_converted runs before
-   refs_validated) — both independent of the order *)
+(* reset pass: conversion error is reported for the first offender in declaration order; since the repair
+   of D14 (/repo 0a1d247: refs_validated runs first) a dangling register ref WITH a reset override is
+   reported as a dangling ref instead of reaching the .expect of reset_values_converted — all
+   independent of the order *)
 Example C20_demo_reset_outcomes :
   hash_passes conv_demo orders_rev [reg "P" (Some 300%Z); reg "Q" (Some 400%Z)] = Reject (EResetConv "P") /\
-  hash_passes conv_demo orders_rev [rref "A" "X1" (Some 5%Z)] = Abort AssertFail /\
+  hash_passes conv_demo orders_rev [rref "A" "X1" (Some 5%Z)] = Reject (ERefUnknown KRegister "A" "X1") /\
   hash_passes conv_demo orders_id [reg "P" (Some 1%Z); reg "P" (Some 2%Z)] = Abort AssertFail.
 Proof. vm_compute. repeat split. Qed.
 
